@@ -28,6 +28,8 @@ pub struct C15Oracle {
     stored: Option<Vec<u8>>,
     /// data length at the start of the current instruction
     orig_len: usize,
+    /// data borrow the harness currently holds (`borrow` op)
+    borrow: String,
 }
 
 impl Oracle for C15Oracle {
@@ -41,7 +43,7 @@ impl Oracle for C15Oracle {
         let t: Vec<&str> = line.split(' ').collect();
         let Some(post) = post else { return };
         if t[0] == "setup" {
-            *self = C15Oracle { orig_len: post.data.len(), ..Default::default() };
+            *self = C15Oracle { orig_len: post.data.len(), borrow: "none".into(), ..Default::default() };
             return;
         }
         let Some(pre) = pre else { return };
@@ -52,16 +54,22 @@ impl Oracle for C15Oracle {
         let val0 = self.val.clone();
         let detail = || format!("{line} -> {ans}; owner={} writable={} disc={} pre={} post={} val={:?}", hex(&pre.owner), pre.writable, hex(&pre.disc), hex(&pre.data), hex(&post.data), val0.as_ref().map(|v| hex(v)));
         match t[0] {
+            "borrow" => self.borrow = t[1].to_string(),
             "next" => {
+                self.borrow = "none".into();
                 self.val = None;
                 self.have_wrapper = false;
                 self.orig_len = post.data.len();
             }
             "decode" => {
                 self.have_wrapper = ans.starts_with("ok");
+                // no more than the discriminant left (closed / never initialised): decoded as "no value"
+                if pre.data.len() <= w && ans != "ok none" {
+                    rec.fail("closed_account_not_decoded_as_empty", &detail());
+                }
                 self.val = ans.strip_prefix("ok ").filter(|v| *v != "none").and_then(hx_common::unhex);
                 if let Some(st) = &self.stored {
-                    if ans != format!("ok {}", hex(st)) {
+                    if ans != format!("ok {}", hex(st)) && !(self.borrow == "excl" && ans == "err:AccountBorrowFailed") {
                         rec.fail("persist_reload_mismatch", &detail());
                     }
                 }
@@ -71,6 +79,10 @@ impl Oracle for C15Oracle {
                     if ans != format!("ok {}", hex(st)) {
                         rec.fail("client_reload_mismatch", &detail());
                     }
+                }
+                // the client helper reads an account as this type only if it carries the type's discriminant
+                if ans.starts_with("ok") && (pre.data.len() < w || pre.data[..w] != pre.disc[..]) {
+                    rec.fail("client_accepts_foreign_discriminant", &detail());
                 }
             }
             "reload" => {
@@ -111,7 +123,8 @@ impl Oracle for C15Oracle {
                             } else {
                                 self.stored = Some(v.clone());
                             }
-                        } else if ans == "err:InvalidRealloc" && new_len > self.orig_len + MAX_INCREASE {
+                        } else if (ans == "err:InvalidRealloc" && new_len > self.orig_len + MAX_INCREASE) || (ans == "err:AccountBorrowFailed" && self.borrow != "none") {
+                            // refused by the runtime (growth allowance / data borrowed elsewhere): nothing may have been written
                             if post.data != pre.data {
                                 rec.fail("failed_cleanup_wrote", &detail());
                             }
@@ -236,7 +249,7 @@ pub fn run(args: &Args) {
     };
 
     // 1. live histories: several instructions, each with 0..3 value changes, default / refund cleanup
-    let n_hist = if thorough { 6_000 } else { 700 };
+    let n_hist = if thorough { 30_000 } else { 2_800 };
     for h in 0..n_hist {
         let ti = types[h % types.len()];
         let (kind, pid, disc) = entry(&d, ti);
@@ -397,7 +410,7 @@ pub fn run(args: &Args) {
     }
 
     // 3. raw account bytes: truncated / trailing / bad length prefixes / invalid UTF-8 behind a right or wrong discriminant
-    let n_raw = if thorough { 8_000 } else { 1_200 };
+    let n_raw = if thorough { 40_000 } else { 4_200 };
     for r in 0..n_raw {
         let ti = types[r % types.len()];
         let (kind, pid, disc) = entry(&d, ti);
@@ -455,7 +468,7 @@ pub fn run(args: &Args) {
     }
 
     // 4. PRNG op sequences
-    let n_rand = if thorough { 20_000 } else { 2_500 };
+    let n_rand = if thorough { 100_000 } else { 8_000 };
     for _ in 0..n_rand {
         let ti = *rng.pick(&types);
         let (kind, pid, disc) = entry(&d, ti);
